@@ -91,6 +91,9 @@ type Host struct {
 	// unspecified address, and those sockets send with it as source. It is not on any interface.
 	Alias netip.Addr
 
+	// FailedListens records the requested address of every listen that failed (any reason).
+	FailedListens []netip.AddrPort
+
 	nextPort map[netip.Addr]int
 	bound    map[netip.AddrPort]*Sock
 }
@@ -514,18 +517,24 @@ func (h *Host) Net() transport.Net { return &hostNet{h} }
 type Park struct {
 	Kind string
 	Key  string
+	// Fail, when set before Release, makes the parked operation fail with this error.
+	Fail error
 	seq  uint64
 	ch   chan struct{}
 }
 
-func (w *World) park(kind, key string) {
+func (w *World) park(kind, key string) *Park {
 	w.mu.Lock()
 	p := &Park{Kind: kind, Key: key, seq: w.parkSeq, ch: make(chan struct{})}
 	w.parkSeq++
 	w.parked = append(w.parked, p)
 	w.mu.Unlock()
 	<-p.ch
+	return p
 }
+
+// ParkHere parks the calling goroutine (simulator-owned stubs: TURN client, ...) until released.
+func (w *World) ParkHere(kind, key string) *Park { return w.park(kind, key) }
 
 // Parked returns the parked callers in canonical order (kind, key, arrival).
 func (w *World) Parked() []*Park {
@@ -558,10 +567,25 @@ func (w *World) Release(p *Park) {
 }
 
 func (n *hostNet) listen(tag, network string, laddr netip.AddrPort) (*Sock, error) {
+	s, err := n.listen0(tag, network, laddr)
+	if err != nil {
+		n.h.w.mu.Lock()
+		n.h.FailedListens = append(n.h.FailedListens, laddr)
+		n.h.w.mu.Unlock()
+	}
+	return s, err
+}
+
+func (n *hostNet) listen0(tag, network string, laddr netip.AddrPort) (*Sock, error) {
 	h := n.h
 	w := h.w
 	if w.ParkListens {
-		w.park("listen", fmt.Sprintf("%s/%s/%s", h.Name, network, laddr))
+		if p := w.park("listen", fmt.Sprintf("%s/%s/%s", h.Name, network, laddr)); p.Fail != nil {
+			w.mu.Lock()
+			w.Stats.ListenErrors++
+			w.mu.Unlock()
+			return nil, &net.OpError{Op: "listen", Net: network, Err: p.Fail}
+		}
 	}
 	w.mu.Lock()
 	defer w.mu.Unlock()
@@ -699,13 +723,16 @@ func (n *hostNet) ResolveIPAddr(_, address string) (*net.IPAddr, error) {
 	}
 	return &net.IPAddr{IP: ip}, nil
 }
-func (n *hostNet) ResolveUDPAddr(_, address string) (*net.UDPAddr, error) {
+func (n *hostNet) ResolveUDPAddr(network, address string) (*net.UDPAddr, error) {
 	if n.h.ResolveFault != nil {
 		return nil, n.h.ResolveFault
 	}
 	ap, err := netip.ParseAddrPort(address)
 	if err != nil {
 		return nil, &net.DNSError{Err: "no such host", Name: address, IsNotFound: true}
+	}
+	if (network == "udp4" && ap.Addr().Is6()) || (network == "udp6" && ap.Addr().Is4()) {
+		return nil, &net.AddrError{Err: "no suitable address found", Addr: address}
 	}
 	return net.UDPAddrFromAddrPort(ap), nil
 }
